@@ -328,3 +328,7 @@ MUTANTS += [
     ("c05_xarray_label_array_regress", ST, "                        label_indexes[self.time_var] = slice(\n                            tlabels[in_window].min(),\n                            tlabels[in_window].max(),\n                        )",
      "                        label_indexes[self.time_var] = ds[self.time_var].to_numpy()[in_window]", ["C05"]),
 ]
+MUTANTS += [
+    ("c03_finer_bound_kept_regress", A, "    if between[0]:\n        start_inclusive = False\n    if between[1]:\n        end_inclusive = True\n", "", ["C03"]),
+    ("c01_zero_step_min_period_regress", Q, "            min_periods = int(min_period / time_interval) if time_interval > 0 else None\n", "            min_periods = int(min_period / time_interval)\n", ["C01"]),
+]
